@@ -63,10 +63,14 @@ type LookupSpec struct {
 type Trigger struct {
 	OnMethod string        `json:"on_method"` // RequestToJoin | FinishJoin | RequestToLeave | FinishLeave | Import
 	Nth      int           `json:"nth"`
-	Target   string        `json:"target"` // caller | callee | pred-of-caller | succ-of-caller | pred-of-callee | succ-of-callee
+	Target   string        `json:"target"` // caller | callee | pred-of-caller | succ-of-caller | pred-of-callee | succ-of-callee | top | pred-of-top | bottom
 	Kind     string        `json:"kind"`   // leave | join-before (a spare node whose id lands just before the target joins via the target)
 	Delay    time.Duration `json:"delay"`
 	Spare    uint64        `json:"spare_offset,omitempty"`
+	// WhenTop: with Nth == 0, fire (once) at the first such RPC whose target is the member with the largest
+	// identifier - the node whose successor has the smaller identifier, i.e. the pair that takes its two
+	// membership locks in the other order
+	WhenTop bool `json:"when_top,omitempty"`
 }
 
 type SchedSpec struct {
@@ -388,6 +392,20 @@ func GenPlan(prop string, seed uint64, tier string) *Plan {
 				Spare:    1 + r.Uint64()%1000,
 			})
 		}
+	}
+	if churn && r.Chance(0.35) {
+		// two changes that meet at the wrap-around pair: the member with the largest identifier starts to leave
+		// while it serves a join, or while its predecessor is leaving through it
+		first := Trigger{OnMethod: pick(r, "FinishJoin", "RequestToJoin", "GetSuccessors", "Notify"), Nth: 1 + r.Intn(12), Delay: time.Duration(r.Int63n(int64(p.Stab))), Spare: 1 + r.Uint64()%1000}
+		second := Trigger{Target: "callee", Kind: "leave", WhenTop: true, Delay: pick(r, 0, 0, time.Duration(r.Int63n(int64(5*time.Millisecond))))}
+		if r.Chance(0.5) {
+			first.Target, first.Kind = "top", "join-before"
+			second.OnMethod = "RequestToJoin"
+		} else {
+			first.Target, first.Kind = "pred-of-top", "leave"
+			second.OnMethod = "RequestToLeave"
+		}
+		p.Triggers = append(p.Triggers, first, second)
 	}
 	if prop == "C04" && churn && r.Chance(0.6) {
 		p.Bursts = 2 + r.Intn(6)
